@@ -327,6 +327,7 @@ class Oracle:
         gen = self.value(32)
         body = b""
         descs = []
+        dtxt = []
         for _ in range(self.count()):
             tid, te = self.transport_id()
             v = self.vals("full_status_descriptor", {"additional_desc_length": len(tid)})
@@ -334,7 +335,18 @@ class Oracle:
             e["transport_id"] = te
             descs.append(e)
             body += self.enc("full_status_descriptor", v) + tid
-        return gen.to_bytes(4, "big") + len(body).to_bytes(4, "big") + body, {"pr_generation": gen, "full_status": descs}
+            namekey = {0: "n_port_name", 3: "eui64_name", 4: "initiator_port_identifier", 6: "sas_address"}.get(te["protocol_id"])
+            dtxt.append(None if namekey is None else "{header={%s},pid=i%d,tid={tpid_format=i%d,protocol_id=i%d,%s=%s}}" % (
+                ",".join("%s=i%d" % kv for kv in v.items()), te["protocol_id"], te["tpid_format"], te["protocol_id"], namekey, hx(te[namekey])))
+        whole = gen.to_bytes(4, "big") + len(body).to_bytes(4, "big") + body
+        if all(t is not None for t in dtxt):
+            # only fixed-size TransportIDs: the whole response as the Lean oracle states it (Std.encReadFullStatus,
+            # the encoder of C04.prReadFullStatus_decodes)
+            lean = self.stdenc("prreadfullstatus", "{gen=i%d,descs=[%s]}" % (gen, ",".join(dtxt)))
+            if lean != whole:
+                raise Infra("oracle inconsistency: Std.encReadFullStatus differs from the block-wise composition")
+            whole = lean
+        return whole, {"pr_generation": gen, "full_status": descs}
 
     # ------------------------------------------------------------------ READ DISC INFORMATION
     def discinfo(self):
